@@ -70,7 +70,7 @@ class Cli(Harness):
             if e[0] == 'stderr': stderr = s_concat(stderr, e[1])
         creates = [e for e in eff if e[0] == 'create']; writes = [e for e in eff if e[0] == 'write']
         reads = [e for e in eff if e[0] == 'read']
-        conds.append(('reads exactly the named input file', len(reads) == 1 and SEQ(reads[0][1], Frags([self.inpath]))))
+        conds.append(('reads nothing but the named input file, at most once', len(reads) <= 1 and (len(reads) == 0 or SEQ(reads[0][1], Frags([self.inpath])))))
         input_fault = (not out['read_ok']) or out['kind'] != 0
         if input_fault:
             conds.append(('input at fault: exit status 1', out['code'] == 1))
@@ -130,7 +130,10 @@ class Cli(Harness):
         from .native import BUILD
         return os.path.join(BUILD, 'cli', 'debug', 'xml_schema_generator')
     def judge_native(self, c, replay, workdir):
-        if c['args']['derive'].startswith('-') or '\x00' in c['args']['derive'] or not c['write_ok']: return None, {'why': 'case not expressible as a real invocation (derive looks like a flag / write failure cannot be forced)'}
+        # values the failing clause does not depend on are normalised so that the case becomes a real invocation
+        if c['args']['derive'].startswith('-') or '\x00' in c['args']['derive']: c['args']['derive'] = 'Debug'
+        if c['args']['output'] is not None and ('\x00' in c['args']['output'] or c['args']['output'] == ''): c['args']['output'] = 'out.rs'
+        c['write_ok'] = True          # a failing write cannot be forced on a real file system
         code, out, err, content = self.cli_run(c, workdir)
         problems = []
         fault = (not c['input']['readable']) or c['input']['kind'] != 'well-formed'
